@@ -2,6 +2,20 @@
 """writes MANIFEST.json from the table below (kept in one place so that it stays valid)"""
 import json
 CHECKS = {
+ "C03": dict(
+   text="Proof over Q about a Lean model of the OdeSystem time-grid state machine (construction, integrate(t) without events, direction "
+        "fix, step clipping, buffer growth, loop guard, final-step test, dt update, callbacks assigning dt, faults, status, setters, reset) "
+        "with the integrator as an oracle: for EVERY integrator behaviour honouring the contract (non-zero step in the direction of the "
+        "request, not longer than it, non-zero proposal), every span and sign pattern, every dt != 0 and every sequence of calls, the grid "
+        "is extended by samples moving strictly monotonically toward the target without passing it, earlier samples (incl. the first) are "
+        "untouched, and a call that returns through the loop guard ends within max(eps, tolEps) of the target; a whole final step lands "
+        "exactly (theorems loop_grid, integrate_grid, call_sequence_covers_spans). Tied to the code by bit-exact float64 replay of recorded "
+        "operation sequences (times, dt, status, capacity, every requested step).",
+   note="Trusted: Lean kernel, standard axioms, harness. Modelled, not verified: IEEE rounding (theorems over Q; replay is bit-exact on "
+        "generated inputs), the states y (pairing/finite/dtype are checked on the implementation only), event handling (C07-C09). The "
+        "integrator contract is an explicit hypothesis, checked on every recorded return.",
+   technique="Lean 4 proof (loop invariant by induction over fuel / call list) + bit-exact Float replay of recorded runs",
+   design="5 (C03)"),
  "C14": dict(
    text="Proof over Q for every function f (continuous or not), every bracket in either order and every tolerance, about a "
         "statement-by-statement Lean model of brentsroot and of one lane of brentsrootvec: the returned point is inside the bracket, a "
